@@ -160,8 +160,9 @@ def cases(tier, seed):
         for v in (0, 300, 65535):
             cs.append({"seq": "set", "dest": d, "value": v, "legal": 1, "addressed": addressed, "unit": _unit(rng)})
     for bad in (-1, 65536, 1 << 20, "x", 1.5, None):
-        cs.append({"seq": "set", "dest": ("short", 5), "value": bad, "legal": 0, "unit": _unit(rng)})
-        cs.append({"seq": "limit", "dest": ("short", 5), "value": bad, "selector": 1, "legal": 0, "unit": _unit(rng)})
+        for d in (("short", 5), ("int", 5), ("group", 2), ("bcast", 0)):
+            cs.append({"seq": "set", "dest": d, "value": bad, "legal": 0, "unit": _unit(rng)})
+            cs.append({"seq": "limit", "dest": d, "value": bad, "selector": 1, "legal": 0, "unit": _unit(rng)})
     sels = [m.value for m in colour.QueryColourValueDTR]
     for s in sels:
         stored = range(65536) if tier == "thorough" and s in (2, 128, 194, 226) else \
@@ -174,11 +175,13 @@ def cases(tier, seed):
                 cs.append({"seq": "query", "dest": ("short", 5), "selector": s, "legal": 1,
                            "unit": _unit(rng, report=rng.randrange(0xFF00), sel=s, fault=(at, fk))})
     for bad in (2, 16, 300, "x", None):
-        cs.append({"seq": "query", "dest": ("short", 5), "selector": bad, "legal": 0, "unit": _unit(rng)})
+        for d in (("short", 5), ("int", 5), ("group", 2), ("bcast", 0)):
+            cs.append({"seq": "query", "dest": d, "selector": bad, "legal": 0, "unit": _unit(rng)})
     # things that are not query selectors although they carry a .value that is one: members of other enumerations,
     # a response object, a float, a bool
     for bad in ("@limit:TcWarmest", "@limit:TcCoolest", "@resp:1", "@float:2.0", "@bool"):
-        cs.append({"seq": "query", "dest": ("short", 5), "selector": bad, "legal": 0, "unit": _unit(rng)})
+        for d in (("short", 5), ("int", 5), ("group", 2), ("bcast", 0)):
+            cs.append({"seq": "query", "dest": d, "selector": bad, "legal": 0, "unit": _unit(rng)})
     # two sequences running interleaved (two buses, one process): neither may see anything of the other
     singles = [c for c in cs if c["legal"] and c["seq"] in ("set", "limit", "query")]
     for k in range(200 if tier == "quick" else 5000):
